@@ -121,6 +121,24 @@ _RETURNS_FUTURE = {
         [{"op": "probe"}, {"op": "return", "e": 4}]],
     "params": {"kinds": {}, "model_blind": True},
 }
+# a synchronous call made by a task whose callee is killed by a context's resume() when the nested loop resumes it after its
+# flush; the caller catches the error, looks at the active task, then enters a context of its own and is suspended inside it
+_CALLEE_RESUME_FAILS = {
+    "roots": [[
+        {"op": "let", "h": "h1", "f": {"task": [
+            {"op": "with", "c": {"async": [1, {"resume": [1, 33]}]}, "body": [
+                {"op": "yield", "x": "a1", "s": {"new": {"item": [0, 1, {"set": 1}]}}}]}, {"op": "return", "e": 0}]}},
+        {"op": "try", "body": [{"op": "sync", "x": "x1", "h": "h1"}], "x": "e1", "handler": [{"op": "probe"}]},
+        {"op": "probe"},
+        {"op": "with", "c": {"async": [2, None]}, "body": [
+            {"op": "yield", "x": "x2", "s": {"tuple": [
+                {"new": {"item": [0, 2, {"set": 2}]}},
+                {"new": {"task": [{"op": "yield", "x": "b1", "s": {"new": {"item": [1, 3, {"set": 3}]}}}, {"op": "return", "e": {"var": "b1"}}]}}]}},
+            {"op": "probe"}]},
+        {"op": "return", "e": 1}],
+        [{"op": "probe"}, {"op": "return", "e": 2}]],
+    "params": {"kinds": {}},
+}
 _EXTRA = [(2, dict(_base, name="ctx-faults", p_ctx_fault=0.8, p_with=0.45, p_item=0.6, p_probe=0.25, p_nonasync=0.1)),
           (1, dict(_base, name="cancel-self", p_flush_raise=0.8, p_via_cancel=0.8, p_item=0.65, nkinds=3)),
           (1, dict(_base, name="base-errors", p_base_err=1.0, p_flush_raise=0.5, p_item=0.6)),
@@ -129,5 +147,5 @@ _EXTRA = [(2, dict(_base, name="ctx-faults", p_ctx_fault=0.8, p_with=0.45, p_ite
 
 mach.install(globals(), "C08", ("EvProbe", "EvSched"), ("C08:",), PROFILES, n_quick=300, n_thorough=25000,
              nontrivial=_nontrivial, level="proof",
-             corpus=[_GUARD_BATCH, _GUARD_NESTED, _GUARD_CAUGHT, _STALE_BATCH, _RESUME_FAILS, _CANCEL_SELF, _RETURNS_FUTURE],
+             corpus=[_GUARD_BATCH, _GUARD_NESTED, _GUARD_CAUGHT, _STALE_BATCH, _RESUME_FAILS, _CANCEL_SELF, _RETURNS_FUTURE, _CALLEE_RESUME_FAILS],
              extra_gen=mach.extra_profiles(_EXTRA, 100, 6000))
